@@ -8,6 +8,56 @@ namespace NV.C14
 
 theorem N_pos : 0 < N := by decide
 
+/-! ### bridges: the definitions regenerated from src/comm.c (`NV.Gen.C14`, C `int` arithmetic) are the ring operations
+
+A source change that alters the chunk rule, an index update, a ring-full test or the errno classification changes `Gen`,
+and the corresponding bridge below no longer proves. -/
+
+/-- `ip->message_producer = (ip->message_producer + 1) % MESSAGE_BUF_SIZE` -/
+theorem producerNext_eq (s : St) : producerNext s = (s.prod + 1) % N := by
+  unfold producerNext NV.Gen.C14.producerNext
+  rw [Int.tmod_eq_emod_of_nonneg (by omega)]
+  simp only [N, NV.Gen.C14.messageBufSize]; omega
+
+/-- `ip->message_consumer = (ip->message_consumer + num_bytes) % MESSAGE_BUF_SIZE` -/
+theorem consumerNext_eq (s : St) (m : Nat) : consumerNext s m = (s.cons + m) % N := by
+  unfold consumerNext NV.Gen.C14.consumerNext
+  rw [Int.tmod_eq_emod_of_nonneg (by omega)]
+  simp only [N, NV.Gen.C14.messageBufSize]; omega
+
+/-- `ip->message_length -= num_bytes` -/
+theorem lengthAfterSend_eq (s : St) (m : Nat) : lengthAfterSend s m = s.len - m := by
+  unfold lengthAfterSend NV.Gen.C14.lengthAfterSend; omega
+
+/-- the contiguous-chunk rule: `consumer < producer ? producer - consumer : SIZE - consumer` -/
+theorem chunkLen_eq (s : St) : chunkLen s = if s.cons < s.prod then s.prod - s.cons else N - s.cons := by
+  unfold chunkLen NV.Gen.C14.chunkLen
+  split <;> split <;> omega
+
+/-- the ring-full test of add_message compares the length with the buffer size -/
+theorem thrFull_eq (s : St) : thrFull s = N := by
+  unfold thrFull NV.Gen.C14.fullThr; omega
+
+/-- before a CR LF pair the test is against size - 1 -/
+theorem thrLF_eq (s : St) : thrLF s = N - 1 := by
+  unfold thrLF NV.Gen.C14.lfThr; omega
+
+/-- the errno values for which flush_message keeps the data are exactly EWOULDBLOCK and EINTR -/
+theorem keepsData_eq (e : Nat) : keepsData e = specKeeps e := by
+  unfold keepsData specKeeps
+  by_cases h1 : e = NV.Gen.C14.eWouldBlock <;> by_cases h2 : e = NV.Gen.C14.eIntr <;>
+    simp_all [NV.Gen.C14.keepErrnos, NV.Gen.C14.eWouldBlock, NV.Gen.C14.eIntr]
+
+theorem keepsData_pipe : keepsData NV.Gen.C14.ePipe = false := by decide
+
+/-- LF and CR as located in the source are the ASCII codes, and differ -/
+theorem LF_CR_values : LF = 10 ∧ CR = 13 := by decide
+
+theorem consume_eq (s : St) (m : Nat) (bs : List Byte) (rs : List SendRes) :
+    consume s m bs rs =
+      { s with cons := (s.cons + m) % N, len := s.len - m, script := rs, sentR := bs.reverse ++ s.sentR } := by
+  unfold consume; rw [consumerNext_eq, lengthAfterSend_eq]
+
 /-- `(c + l) % N` for an index and a length inside the ring: at most one wrap -/
 theorem mod_wrap {c l : Nat} (hc : c < N) (hl : l ≤ N) :
     (c + l) % N = if c + l < N then c + l else c + l - N := by
@@ -27,7 +77,7 @@ structure Inv (s : St) : Prop where
 theorem Inv.prod_lt {s : St} (h : Inv s) : s.prod < N := by
   rw [h.prod_eq]; exact Nat.mod_lt _ N_pos
 
-theorem init_inv (script : List SendRes) : Inv (St.init script) := by
+theorem init_inv (script : List SendRes) (console : Bool := false) : Inv (St.init script console) := by
   refine ⟨?_, ?_, ?_, ?_, ?_⟩ <;> simp [St.init, N_pos]
 
 /-- the chunk handed to send(): non-empty, inside the buffer, not longer than what is pending -/
@@ -37,7 +87,7 @@ theorem chunk_ok {s : St} (h : Inv s) (hl : s.len ≠ 0) :
   have hle := h.len_le
   have hp := h.prod_eq
   rw [mod_wrap hc hle] at hp
-  unfold chunkLen
+  rw [chunkLen_eq]
   split at hp <;> split <;> omega
 
 theorem contents_length (s : St) : (contents s).length = s.len := by
@@ -52,7 +102,7 @@ theorem put_eq {s : St} (h : Inv s) (b : Byte) :
     put s b = { s with buf := s.buf.setIfInBounds s.prod b, prod := (s.prod + 1) % N, len := s.len + 1,
                        histR := b :: s.histR } := by
   unfold put
-  rw [if_pos h.prod_lt]
+  rw [if_pos h.prod_lt, producerNext_eq]
 
 theorem put_inv {s : St} (h : Inv s) (hl : s.len < N) (b : Byte) : Inv (put s b) := by
   rw [put_eq h]
@@ -95,6 +145,7 @@ theorem put_histR {s : St} (h : Inv s) (b : Byte) : (put s b).histR = b :: s.his
 
 theorem consume_inv {s : St} (h : Inv s) {m : Nat} (hm : m ≤ s.len) (bs : List Byte) (rs : List SendRes) :
     Inv (consume s m bs rs) := by
+  rw [consume_eq]
   have hc := h.cons_lt
   have hle := h.len_le
   refine ⟨h.size, Nat.mod_lt _ N_pos, ?_, ?_, h.nofault⟩
@@ -107,6 +158,7 @@ theorem consume_inv {s : St} (h : Inv s) {m : Nat} (hm : m ≤ s.len) (bs : List
 
 theorem consume_contents {s : St} {m : Nat} (_hm : m ≤ s.len) (bs : List Byte) (rs : List SendRes) :
     contents (consume s m bs rs) = (contents s).drop m := by
+  rw [consume_eq]
   unfold contents
   show List.map (fun i => s.buf.getD (((s.cons + m) % N + i) % N) 0) (List.range (s.len - m)) = _
   apply List.ext_getElem
